@@ -145,7 +145,7 @@ func runSimCheck(spec *simCheckSpec, args []string) int {
 			"seed_script": sc.Script, "deviation_bound": sc.MaxDev, "deviation_bound_attempted": lastDev[sc.Name], "deviation_bound_completed": res.DevCompleted,
 			"states": res.States, "transitions": res.Transitions, "max_depth": res.MaxDepth,
 			"exhaustive": res.Exhaustive && lastDev[sc.Name] == sc.MaxDev, "cap": res.Capped, "reached": reached, "not_reached": vacuous,
-			"replay_hash_mismatches": res.Mismatches, "maporder_steps_repeated": res.OrderSteps, "maporder_extra_outcomes": res.OrderAlts, "worker_deaths": res.WorkerDeaths, "wall_s": res.Wall,
+			"replay_hash_mismatches": res.Mismatches, "maporder_steps_repeated": res.OrderSteps, "maporder_extra_outcomes": res.OrderAlts, "worker_deaths": res.WorkerDeaths, "wall_s": res.Wall, "transitions_chained": res.Chained,
 			"terminal_states": res.Outcomes["terminal"], "crash_images": res.CrashImages, "crash_points": res.CrashPoints,
 		})
 		for _, s := range res.Samples {
